@@ -62,6 +62,32 @@ class C { int f(int a) { if (a > 0) { return 1; } else return 2; } void g() { fo
 }
 
 
+def paren_zoo(lang):
+    """comparisons followed by ?: / && / || / , inside every bracket kind, in every context the parenthesis options look at
+    (return, assignment, condition, argument): what mod_full_paren_* adds must nest with the brackets that are there"""
+    inner = ["a == b ? 0 : 1", "a < b && b < c", "a != b || c", "(a == b, c)", "!a == b ? c : 0", "a >= b ? (c == a ? 1 : 2) : 3"]
+    br = [("t[", "]"), ("g2(", ")"), ("t[g2(", ")]"), ("g2(t[", "])")]
+    if lang == "C":
+        br += [("(int[]){ ", " }[0]"), ("(struct q){ ", " }.m")]
+    else:
+        br += [("std::array<int, 2>{ ", " }[0]"), ("q{ ", " }.m"), ("vv<(", ")>::k"), ("[=] { return ", "; }()"), ("[=](int z) { return z + (", "); }(1)")]
+    ctxs = ["if (c) return %s;", "x = %s;", "x = 1 + %s + 2;", "if (%s) x = 1;", "x = y ? %s : 0;", "while (%s) break;", "h2(%s, 1);", "int d%d = %s;", "x += %s;"]
+    out = ["int pz(int a, int b, int c, int x, int y, int *t)", "{"]
+    n = 0
+    for e in inner:
+        for o, c_ in br:
+            for cx in ctxs:
+                n += 1
+                ex = o + e + c_
+                out.append("    " + (cx % ((n, ex) if "%d" in cx else ex)))
+    out += ["    return x;", "}"]
+    return "\n".join(out) + "\n"
+
+
+MODPROG["C"] += paren_zoo("C")
+MODPROG["CPP"] += paren_zoo("CPP")
+
+
 # brace options other than plain removal: the same trees, judged for MeaningKept / OnlyNamedKinds / Balanced only
 TREE_CFGS = {
     "chain1": "mod_full_brace_if_chain=1\n",
